@@ -46,7 +46,7 @@ let hex_of_string s =
 let enc_out (l : z list) : string =
   let s = string_of_bytes l in
   if String.length s = 0 then "-"
-  else if String.length s > 300 then Printf.sprintf "#%d:%s" (String.length s) (Digest.to_hex (Digest.string s))
+  else if String.length s > 2048 then Printf.sprintf "#%d:%s" (String.length s) (Digest.to_hex (Digest.string s))
   else hex_of_string s
 
 let verdict eng id v tag detail =
@@ -61,43 +61,90 @@ let split_arrow toks =
 
 (* ---- engine reply ----
    reply <id> <proto> <qhex> <kind> <upspec> => <nreplies> <replyenc> <closed> <upsaw> *)
+let full_bytes tok = if String.length tok > 0 && tok.[0] = '#' then None else Some (bytes_of_token tok)
+
 let do_reply id ins outs =
   match ins, outs with
-  | [proto; qh; kind; upspec; adv], [nrep; rep; _closed; saw; replen; head] ->
+  | [proto; qh; kind; upspec; adv], [nrep; rep; closed; saw; replen; head] ->
     let q = bytes_of_token qh in
     let up = bytes_of_token upspec in
     let o = (match kind with "up" -> Up up | "empty" -> UpEmpty | _ -> UpErr) in
     let pr = if proto = "udp" then UDP else TCP in
-    let model = handle pr q o in
-    let mrep = res_str enc_out model in
-    let msaw = res_str enc_out (upstream_payload q) in
+    let model = serve pr q o in
     let pq = parse q in
     let tag = Printf.sprintf "%s/%s%s" proto kind
         (match pq with Ok (_, true) -> "" | Ok (_, false) -> "/perr" | _ -> "/abn") in
+    let tag = if List.length q <= 14 then tag ^ "/small" else tag in
     let problems = ref [] in
-    if nrep <> "1" then problems := ("replies=" ^ nrep) :: !problems;
-    if rep <> mrep then problems := Printf.sprintf "reply impl=%s model=%s" rep mrep :: !problems;
-    if saw <> msaw then problems := Printf.sprintf "upsaw impl=%s model=%s" saw msaw :: !problems;
-    (* extracted boolean specs on the implementation's own observation *)
     let specs = ref [] in
     let advn = int_of_string adv and n = int_of_string replen in
-    let hd = bytes_of_token head in
-    let r = List.length up in
-    if kind = "up" && advn >= -1 && r >= 15 && nrep = "1" then begin
-      let m = if advn < 0 then 512 else advn in
-      if proto = "udp" then begin
-        if not (c05_udp_ok (z_of_int m) (z_of_int r) (z_of_int n) (tc_bit hd) (tc_bit up)) then specs := "C05" :: !specs
-      end else begin
-        let pre = (match hd with a :: b :: _ -> int_of_z a * 256 + int_of_z b | _ -> -1) in
-        if not (c05_tcp_ok (z_of_int r) (z_of_int pre) (z_of_int n)) then specs := "C05" :: !specs
-      end
-    end;
-    if nrep <> "1" && advn >= -1 then specs := "C01" :: !specs;
+    (match model with
+     | Ok (Reply b) ->
+       let mrep = enc_out b in
+       if nrep <> "1" then problems := ("replies=" ^ nrep) :: !problems;
+       if rep <> mrep then problems := Printf.sprintf "reply impl=%s model=%s" rep mrep :: !problems;
+       let msaw = res_str enc_out (upstream_payload q) in
+       if saw <> msaw then problems := Printf.sprintf "upsaw impl=%s model=%s" saw msaw :: !problems;
+       (* extracted boolean specs on the implementation's own observation *)
+       if nrep <> "1" then begin
+         (* a datagram >14 bytes / a framed message must be answered: C02; for a query the
+            generator built well-formed (adv >= -1) also C01 *)
+         specs := "C02" :: !specs; if advn >= -1 then specs := "C01" :: !specs
+       end else begin
+         (match full_bytes rep with
+          | Some rb -> if advn >= -1 && not (c01_ok pr q o rb) then specs := "C01" :: !specs
+          | None -> ());
+         let hd = bytes_of_token head in
+         let r = List.length up in
+         if kind = "up" && advn >= -1 && r >= 15 then begin
+           let m = if advn < 0 then 512 else advn in
+           if proto = "udp" then begin
+             if not (c05_udp_ok (z_of_int m) (z_of_int r) (z_of_int n) (tc_bit hd) (tc_bit up)) then specs := "C05" :: !specs
+           end else begin
+             let pre = (match hd with a :: b :: _ -> int_of_z a * 256 + int_of_z b | _ -> -1) in
+             if not (c05_tcp_ok (z_of_int r) (z_of_int pre) (z_of_int n)) then specs := "C05" :: !specs
+           end
+         end;
+         (match full_bytes saw with
+          | Some sb when saw <> "none" -> if not (c13_ok q sb) then specs := "C13" :: !specs
+          | _ -> ())
+       end
+     | Ok Silence -> if nrep <> "0" then problems := ("expected silence, replies=" ^ nrep) :: !problems
+     | Ok CloseConn -> if nrep <> "0" || closed <> "1" then problems := Printf.sprintf "expected close without reply, replies=%s closed=%s" nrep closed :: !problems
+     | _ -> problems := ("model abnormal: " ^ res_str (fun _ -> "") model) :: !problems);
     let detail = String.concat "; " !problems in
     if !specs <> [] then verdict "reply" id ("spec:" ^ String.concat "," !specs) tag detail
     else if !problems = [] then verdict "reply" id "ok" tag ""
     else verdict "reply" id "diff" tag detail
   | _ -> verdict "reply" id "diff" "malformed-line" ""
+
+(* ---- engine query ----
+   query <id> <payloadhex> => <ok|err|PANIC|TIMEOUT> id class type rd msgsize namehex peerhex mac payloadenc *)
+let do_query id ins outs =
+  match ins with
+  | [ph] ->
+    let payload = bytes_of_token ph in
+    let m = parse payload in
+    let ms = (match m with
+      | Ok (q, okflag) ->
+        String.concat " " [ (if okflag then "ok" else "err");
+          string_of_int (int_of_z q.q_id); string_of_int (int_of_z q.q_class); string_of_int (int_of_z q.q_type);
+          (if q.q_rd then "1" else "0"); string_of_int (int_of_z q.q_msgsize);
+          (match q.q_name with [] -> "-" | n -> hex_of_string (string_of_bytes n));
+          (match q.q_peer with None -> "7f000009" | Some ip -> (match ip with [] -> "-" | _ -> hex_of_string (string_of_bytes ip)));
+          (match q.q_mac with None -> "none" | Some [] -> "-" | Some mac -> hex_of_string (string_of_bytes mac));
+          enc_out q.q_payload ]
+      | Err _ -> "MODEL-ERR" | Panic -> "PANIC" | OutOfFuel -> "OUTOFFUEL") in
+    let is = String.concat " " outs in
+    let tag = (match m with Ok (q, true) ->
+                 (if q.q_peer <> None then "ok+ecs" else if q.q_msgsize <> z_of_int 512 || q.q_mac <> None then "ok+opt" else "ok")
+               | Ok (_, false) -> "perr" | _ -> "abnormal") in
+    let specs = ref [] in
+    (match outs with ("PANIC" | "TIMEOUT") :: _ -> specs := ["C02"] | _ -> ());
+    if !specs <> [] then verdict "query" id "spec:C02" tag (Printf.sprintf "impl=%s model=%s" is ms)
+    else if is = ms then verdict "query" id "ok" tag ""
+    else verdict "query" id "diff" tag (Printf.sprintf "impl=%s model=%s" is ms)
+  | _ -> verdict "query" id "diff" "malformed-line" ""
 
 let () =
   try
@@ -106,6 +153,7 @@ let () =
       let toks = String.split_on_char ' ' line in
       match toks with
       | "reply" :: id :: rest -> let (i, o) = split_arrow rest in do_reply id i o
+      | "query" :: id :: rest -> let (i, o) = split_arrow rest in do_query id i o
       | _ -> ()
     done
   with End_of_file -> ()
